@@ -59,7 +59,7 @@ static bool edn_value_equal_internal(const edn_value_t* a, const edn_value_t* b,
         return false;
     }
 
-    if (depth >= MAX_RECURSION_DEPTH) {
+    if (depth > MAX_RECURSION_DEPTH) {
         return false;
     }
 
